@@ -5,7 +5,9 @@
 #   3. the pinned test-suite still has its 243 passes   4. the registered check is run against the patched tree
 ID="$1"; DIR="$(cd "$2" && pwd)"; shift 2
 NOTESTS=0; if [ "$1" = "--notests" ]; then NOTESTS=1; shift; fi
-WT="$(mktemp -d /tmp/verif-seed-XXXXXX)"
+DEMOONLY=0; if [ "$1" = "--demoonly" ]; then DEMOONLY=1; NOTESTS=1; shift; fi
+# SEED_WT: create the scratch worktree at this path (demos written by the seeding agents may assert their original worktree path)
+if [ -n "$SEED_WT" ]; then WT="$SEED_WT"; else WT="$(mktemp -d /tmp/verif-seed-XXXXXX)"; fi
 git -C /repo worktree add -q --detach "$WT" HEAD || exit 3
 run_demo() { (cd "$WT" && PYTHONPATH="$WT" MPLBACKEND=Agg timeout 600 /venv/bin/python -W ignore "$DIR/demo.py" >"$WT.demo.out" 2>&1; echo $?); }
 D0=$(run_demo)
@@ -16,6 +18,7 @@ echo "demo with the change:   exit=$D1   ($(tail -1 "$WT.demo.out" | cut -c1-200
 if [ $NOTESTS = 0 ]; then
   (cd "$WT" && PYTHONPATH="$WT" /venv/bin/python -m pytest -q -p no:cacheprovider --timeout=900 --continue-on-collection-errors test 2>&1 | tail -1)
 fi
+if [ $DEMOONLY = 1 ]; then git -C /repo worktree remove --force "$WT"; rm -f "$WT.demo.out"; exit 0; fi
 VERIF_REPO="$WT" VERIF_EVIDENCE_DIR="$WT/.evidence" "$(dirname "$0")/../run_check.sh" "$ID" "$@" 2>&1 | grep -v "^  inconclusive" | tail -6
 RC=$?
 git -C /repo worktree remove --force "$WT"
